@@ -334,7 +334,7 @@ def generate(rng, index, tier):
     errs = []
     for j in range(n_out):
         recipes.append({'h': 'e%d' % j, 'kind': 'error',
-                        'cls': rng.choice(['G', 'M', 'CM', 'LN'])})
+                        'cls': rng.choice(['G', 'M', 'CM', 'CM', 'LN'])})
         errs.append('e%d' % j)
     n_err = sum(zoo.n_error_params(r['cls']) for r in recipes[1:])
     n_ll = n_mech + n_err
@@ -417,6 +417,38 @@ def generate(rng, index, tier):
     shadow_fixed = set()
     n_all = n_ll
     after_fix = False
+    cm = [j for j in range(n_out) if recipes[1 + j]['cls'] == 'CM']
+    if shape == 'll' and cm and rng.random() < 0.5:
+        # an error model with two parameters: fix one, differentiate, move
+        # the fix to the other one in one call (or add / release the other
+        # one), differentiate again -- anything the wrapper keeps from the
+        # first evaluation is stale now
+        j = rng.choice(cm)
+        base = n_mech + sum(zoo.n_error_params(recipes[1 + i]['cls'])
+                            for i in range(j))
+        k = rng.randint(0, 1)
+        v1, v2 = (round(rng.uniform(0.3, 1.5), 3) for _ in range(2))
+        ops.append({'op': 'fix', 'on': 'll', 'set': [[base + k, v1]]})
+        ops.append({'op': 'check', 'on': 'll', 'point': rng.randint(0, 2),
+                    'order': 's1_first', 'fd': list(range(n_all))})
+        how = rng.random()
+        if how < 0.6:
+            ops.append({'op': 'fix', 'on': 'll', 'set': [
+                [base + k, None], [base + 1 - k, v2]]})
+            shadow_fixed.add(base + 1 - k)
+        elif how < 0.8:
+            # a mechanistic parameter joins: the error model's own fixed set
+            # is unchanged, the likelihood's changes
+            mi = rng.randrange(n_mech)
+            ops.append({'op': 'fix', 'on': 'll', 'set': [[mi, v2]]})
+            shadow_fixed.update([base + k, mi])
+        else:
+            mi = rng.randrange(n_mech)
+            ops.append({'op': 'fix', 'on': 'll', 'set': [
+                [base + k, None], [mi, v2]]})
+            shadow_fixed.add(mi)
+        ops.append({'op': 'check', 'on': 'll', 'point': rng.randint(0, 2),
+                    'order': 's1_first', 'fd': list(range(n_all))})
     for _ in range(n_ops):
         r = rng.random()
         if after_fix and shape == 'll':
